@@ -54,7 +54,7 @@ theorem C15_tags (sty : Style) (U : UnicodeOps) (indent : Nat) (docs : List Str)
   docChars_renderT sty U indent docs
 
 /-- the escaping functions of the model are Rust's `str::replace`; Python (since the `fix:` commit
-37d8a26): `v.replace('\\', "\\\\").replace("\"\"\"", "\\\"\\\"\\\"")` — backslashes doubled first -/
+af54d85): `v.replace('\\', "\\\\").replace("\"\"\"", "\\\"\\\"\\\"")` — backslashes doubled first -/
 theorem C15_escape_is_replace (c : Str) :
     TypeScript.escapeDoc c = Str.replaceSub c s%"*/" s%"*\\/" ∧
     Python.escapeDoc c =
